@@ -23,6 +23,27 @@ AMBIENT = {
 }  # fmt: skip
 
 
+def ambient_family(src: str) -> str:
+    """Coarse kind of an ambient source ("<source> in <function>" accepted): findings are keyed by the kinds involved."""
+    src = src.split(" in ")[0]
+    if src.startswith(("frame.", "inspect.", "sys._getframe")):
+        return "stack"
+    if src == "sys.modules":
+        return "modules"
+    if src.startswith(("time.", "datetime.", "pendulum.")):
+        return "clock"
+    if src.startswith(("random.", "uuid.")):
+        return "random"
+    return "environment"
+
+
+def ambient_detail(reads) -> str:
+    """Obligation detail for an ambient-read finding: plain "ambient" for the call-stack family alone (the recorded
+    finding), otherwise the families spelled out, so that a *new* kind of ambient dependence is a different finding."""
+    fams = sorted({ambient_family(a) for a in reads})
+    return "ambient" if fams in ([], ["stack"]) else "ambient-" + "+".join(fams)
+
+
 def derives(term, root) -> bool:
     """Is `term` the root or reached from it by projections that do not copy (attr/sub/elem/…/load/decode)?"""
     seen = 0
